@@ -939,3 +939,15 @@ Proof.
   - intros r Hr. change [FUnit; r] with (([FUnit] ++ [r])%list). rewrite render_func, Hr. reflexivity.
   - intros parts. cbn [render]. apply append_empty_r.
 Qed.
+
+(** render is NOT injective without lexical conditions on the registered names: a user type may be
+    called like a Go predeclared type, an external package may be called frt.  (Injectivity on
+    unit-free types under such conditions is checked dynamically by the harness, not proved.) *)
+Theorem render_injective_needs_name_conditions :
+  exists (env : string -> option (string * nat)) t1 t2,
+    wf env t1 = true /\ wf env t2 = true /\ t1 <> t2 /\ render env t1 = render env t2.
+Proof.
+  exists (fun n => if String.eqb n "float64" then Some ("float64", 0) else None),
+         (FNamed ["float64"] []), FFloat.
+  repeat split; try reflexivity. discriminate.
+Qed.
